@@ -95,6 +95,9 @@ impl K256Affine {
 
     /// Returns the y coordinate.
     pub fn y(&self) -> Fp {
+        if self.0 == AffinePoint::IDENTITY {
+            return Fp::ZERO;
+        }
         // Use uncompressed encoding to get y coordinate.
         let encoded = self.0.to_encoded_point(false);
         let y_bytes = encoded.y().expect("Uncompressed point has y coordinate");
